@@ -542,7 +542,8 @@ def zint(v):
 
 
 # ---- bit-vector backed big.Int (//verif:opt big_bv=1) --------------------------------------------
-# A Big may carry bv: a signed two's-complement term of arbitrary width whose value is the integer.
+# A Big may carry bv: a signed two's-complement term of arbitrary width whose value is the integer,
+# and nn: "known non-negative" (top bit zero), which lets extensions be zero-extensions and |x| be x.
 # Every operation below computes at a width where the mathematical result fits, so no wrap-around
 # is introduced by the model; v (the Int view) is kept as BV2Int(bv) for code that mixes the views.
 BIG_BV_MAXW = 1200
@@ -561,46 +562,56 @@ def bigobj(ex, st, p):
     return b
 
 
+class SBV:
+    """signed bit-vector view: term + known-non-negative flag"""
+    __slots__ = ('t', 'nn')
+
+    def __init__(self, t, nn=False):
+        self.t = t
+        self.nn = nn
+
+    def size(self):
+        return self.t.size()
+
+    def ext(self, w):
+        d = w - self.t.size()
+        if d == 0:
+            return self.t
+        return z3.ZeroExt(d, self.t) if self.nn else z3.SignExt(d, self.t)
+
+    def abs(self):
+        """|x| as a non-negative SBV"""
+        if self.nn:
+            return self
+        X = self.ext(self.t.size() + 1)
+        return SBV(z3.If(X < 0, -X, X), True)
+
+
 def big_sbv(b):
     """signed bit-vector view of a Big, or None"""
     if b.bv is not None:
-        return b.bv
+        return SBV(b.bv, b.nn)
     if isinstance(b.v, int):
-        return z3.BitVecVal(b.v, max(b.v.bit_length() + 1, 8))
+        return SBV(z3.BitVecVal(b.v, max(b.v.bit_length() + 1, 8)), b.v >= 0)
     return None
 
 
-def sext(x, w):
-    return x if x.size() == w else z3.SignExt(w - x.size(), x)
-
-
-def mkbig_bv(x):
+def mkbig_bv(x, nn=False):
     x = z3.simplify(x)
     if z3.is_bv_value(x):
         return Big(x.as_signed_long())
-    return Big(z3.BV2Int(x, True), x)
+    return Big(z3.BV2Int(x, True), x, nn)
 
 
-def bigset_bv(ex, st, p, x):
+def bigset_bv(ex, st, p, x, nn=False):
     if p is None:
         raise GoPanic('nil-deref', None, 'big.Int method on nil')
-    ex.store(st, p, mkbig_bv(x))
+    ex.store(st, p, mkbig_bv(x, nn))
     return p
 
 
-def big_from_ubv(x):
-    """unsigned machine word / byte string -> Big"""
-    return mkbig_bv(z3.ZeroExt(1, x))
-
-
-def bv_abs(x):
-    w = x.size() + 1
-    X = sext(x, w)
-    return z3.If(X < 0, -X, X)     # signed width w, non-negative
-
-
 def bv_pair(ex, st, pa, pb):
-    """both operands as signed BVs (or None if one of them has no BV view / all concrete)"""
+    """both operands as SBVs (or None if one of them has no BV view / all concrete)"""
     if not bvmode(ex):
         return None
     a, b = bigobj(ex, st, pa), bigobj(ex, st, pb)
@@ -616,9 +627,9 @@ def bv_one(ex, st, p):
     if not bvmode(ex):
         return None
     a = bigobj(ex, st, p)
-    if isinstance(a.v, int):
+    if isinstance(a.v, int) or a.bv is None:
         return None
-    return a.bv
+    return SBV(a.bv, a.nn)
 
 
 def big_binop(op):
@@ -626,19 +637,30 @@ def big_binop(op):
         pr = bv_pair(ex, st, args[1], args[2])
         if pr is not None:
             A, B = pr
+            nn = A.nn and B.nn
             if op in ('add', 'sub'):
                 w = max(A.size(), B.size()) + 1
                 if w <= BIG_BV_MAXW:
-                    return bigset_bv(ex, st, args[0], sext(A, w) + sext(B, w) if op == 'add' else sext(A, w) - sext(B, w))
+                    if op == 'add':
+                        return bigset_bv(ex, st, args[0], A.ext(w) + B.ext(w), nn)
+                    return bigset_bv(ex, st, args[0], A.ext(w) - B.ext(w), False)
             elif op == 'mul':
                 w = A.size() + B.size()
                 if w <= BIG_BV_MAXW:
-                    return bigset_bv(ex, st, args[0], sext(A, w) * sext(B, w))
+                    if ex.opts.get('mul_uf') and not z3.is_bv_value(A.t) and not z3.is_bv_value(B.t):
+                        from .ops import mul_uf
+                        if nn:   # the product of two non-negative values keeps the flag only with a real product
+                            nn = False
+                        return bigset_bv(ex, st, args[0], mul_uf(A.ext(w), B.ext(w)), nn)
+                    return bigset_bv(ex, st, args[0], A.ext(w) * B.ext(w), nn)
             else:
                 w = max(A.size(), B.size()) + 1
-                X, Y = sext(A, w), sext(B, w)
+                X, Y = A.ext(w), B.ext(w)
                 if not ex.branch(st, Y != 0):
                     raise GoPanic('divide-by-zero', None, 'big.Int division by zero')
+                if nn:
+                    res = z3.UDiv(X, Y) if op in ('quo', 'div') else z3.URem(X, Y)
+                    return bigset_bv(ex, st, args[0], res, True)
                 q = X / Y               # bvsdiv: truncated
                 r = z3.SRem(X, Y)       # sign follows the dividend
                 if op == 'quo':
@@ -649,7 +671,7 @@ def big_binop(op):
                     res = z3.If(r < 0, z3.If(Y > 0, q - 1, q + 1), q)
                 else:
                     res = z3.If(r < 0, z3.If(Y > 0, r + Y, r - Y), r)
-                return bigset_bv(ex, st, args[0], res)
+                return bigset_bv(ex, st, args[0], res, op == 'mod')
         x = bigv(ex, st, args[1])
         y = bigv(ex, st, args[2])
         if isinstance(x, int) and isinstance(y, int):
@@ -755,7 +777,7 @@ def ubv2int(ex, st, x, depth=3):
 def m_big_setuint64(ex, st, args, ins, fn):
     x = args[1]
     if bvmode(ex) and not isinstance(x, int):
-        return bigset_bv(ex, st, args[0], z3.ZeroExt(1, x))
+        return bigset_bv(ex, st, args[0], z3.ZeroExt(1, x), True)
     return bigset(ex, st, args[0], x if isinstance(x, int) else ubv2int(ex, st, x))
 
 
@@ -764,7 +786,7 @@ def m_big_set(ex, st, args, ins, fn):
     b = bigobj(ex, st, args[1])
     if args[0] is None:
         raise GoPanic('nil-deref', None, 'big.Int method on nil')
-    ex.store(st, args[0], Big(b.v, b.bv))
+    ex.store(st, args[0], Big(b.v, b.bv, b.nn))
     return args[0]
 
 
@@ -772,7 +794,7 @@ def m_big_set(ex, st, args, ins, fn):
 def m_big_neg(ex, st, args, ins, fn):
     X = bv_one(ex, st, args[1])
     if X is not None:
-        return bigset_bv(ex, st, args[0], -sext(X, X.size() + 1))
+        return bigset_bv(ex, st, args[0], -X.ext(X.size() + 1))
     return bigset(ex, st, args[0], -bigv(ex, st, args[1]))
 
 
@@ -780,7 +802,7 @@ def m_big_neg(ex, st, args, ins, fn):
 def m_big_abs(ex, st, args, ins, fn):
     X = bv_one(ex, st, args[1])
     if X is not None:
-        return bigset_bv(ex, st, args[0], bv_abs(X))
+        return bigset_bv(ex, st, args[0], X.abs().t, True)
     x = bigv(ex, st, args[1])
     return bigset(ex, st, args[0], abs(x) if isinstance(x, int) else z3.If(x >= 0, x, -x))
 
@@ -793,8 +815,8 @@ def cmp_int(a, b):
 
 
 def cmp_bv(A, B):
-    w = max(A.size(), B.size())
-    A, B = sext(A, w), sext(B, w)
+    w = max(A.size(), B.size()) + 1
+    A, B = A.ext(w), B.ext(w)
     return z3.If(A < B, z3.BitVecVal(-1, 64), z3.If(A > B, z3.BitVecVal(1, 64), z3.BitVecVal(0, 64)))
 
 
@@ -810,7 +832,7 @@ def m_big_cmp(ex, st, args, ins, fn):
 def m_big_cmpabs(ex, st, args, ins, fn):
     pr = bv_pair(ex, st, args[0], args[1])
     if pr is not None:
-        return cmp_bv(bv_abs(pr[0]), bv_abs(pr[1]))
+        return cmp_bv(pr[0].abs(), pr[1].abs())
     a, b = bigv(ex, st, args[0]), bigv(ex, st, args[1])
     a = abs(a) if isinstance(a, int) else z3.If(a >= 0, a, -a)
     b = abs(b) if isinstance(b, int) else z3.If(b >= 0, b, -b)
@@ -821,7 +843,7 @@ def m_big_cmpabs(ex, st, args, ins, fn):
 def m_big_sign(ex, st, args, ins, fn):
     X = bv_one(ex, st, args[0])
     if X is not None:
-        return cmp_bv(X, z3.BitVecVal(0, X.size()))
+        return cmp_bv(X, SBV(z3.BitVecVal(0, 8), True))
     return cmp_int(bigv(ex, st, args[0]), 0)
 
 
@@ -830,9 +852,9 @@ def m_big_int64(ex, st, args, ins, fn):
     X = bv_one(ex, st, args[0])
     if X is not None:
         if fn['short'] == 'Int64':      # low 64 bits of |x|, negated when x < 0 == low 64 bits of x
-            return z3.simplify(z3.Extract(63, 0, sext(X, max(X.size(), 64))))
-        ax = bv_abs(X)
-        return z3.simplify(z3.Extract(63, 0, sext(ax, max(ax.size(), 64))))
+            return z3.simplify(z3.Extract(63, 0, X.ext(max(X.size(), 64))))
+        ax = X.abs()
+        return z3.simplify(z3.Extract(63, 0, ax.ext(max(ax.size(), 64))))
     x = bigv(ex, st, args[0])
     signed = fn['short'] == 'Int64'
     if isinstance(x, int):
@@ -847,7 +869,7 @@ def m_big_isint64(ex, st, args, ins, fn):
     if X is not None:
         if X.size() <= 64:
             return True
-        return z3.And(X >= -(1 << 63), X < (1 << 63))
+        return z3.And(X.t >= -(1 << 63), X.t < (1 << 63))
     x = bigv(ex, st, args[0])
     if isinstance(x, int):
         return -(1 << 63) <= x < (1 << 63)
@@ -858,9 +880,11 @@ def m_big_isint64(ex, st, args, ins, fn):
 def m_big_isuint64(ex, st, args, ins, fn):
     X = bv_one(ex, st, args[0])
     if X is not None:
+        if X.nn:
+            return True if X.size() <= 65 else z3.Extract(X.size() - 1, 64, X.t) == 0
         if X.size() <= 65:
-            return X >= 0
-        return z3.And(X >= 0, X < (1 << 64))
+            return X.t >= 0
+        return z3.And(X.t >= 0, X.t < (1 << 64))
     x = bigv(ex, st, args[0])
     if isinstance(x, int):
         return 0 <= x < (1 << 64)
@@ -871,12 +895,20 @@ def m_big_isuint64(ex, st, args, ins, fn):
 def m_big_bitlen(ex, st, args, ins, fn):
     X = bv_one(ex, st, args[0])
     if X is not None:
-        ax = bv_abs(X)
+        ax = X.abs().t
         w = ax.size()
-        r = z3.BitVecVal(w - 1, 64)
-        for k in range(w - 2, -1, -1):
-            r = z3.If(z3.ULT(ax, z3.BitVecVal(1 << k, w)), z3.BitVecVal(k, 64), r)
-        return r
+        # n = BitLen(|x|): a fresh word pinned by  |x| >> n == 0  and (n == 0 or bit n-1 of |x| set)
+        key = ('bitlen', ax.get_id())
+        n = st.ghost.get(key)
+        if n is None:
+            n = z3.BitVec(ex.fresh_name('bitlen'), 64)
+            nw = z3.ZeroExt(w - 64, n) if w > 64 else z3.Extract(w - 1, 0, n)
+            one = z3.BitVecVal(1, w)
+            ex.add_constraint(st, z3.And(z3.ULE(n, w - 1), z3.LShR(ax, nw) == 0,
+                                         z3.Or(n == 0, z3.LShR(ax, nw - one) == one)))
+            st.ghost[key] = n
+            st.ghost[('keep', ax.get_id())] = ax
+        return n
     x = bigv(ex, st, args[0])
     if isinstance(x, int):
         return abs(x).bit_length()
@@ -896,7 +928,7 @@ def m_big_lsh(ex, st, args, ins, fn):
         raise Unsupported('big.Lsh by symbolic amount')
     X = bv_one(ex, st, args[1])
     if X is not None and X.size() + n <= BIG_BV_MAXW:
-        return bigset_bv(ex, st, args[0], sext(X, X.size() + n) << n)
+        return bigset_bv(ex, st, args[0], X.ext(X.size() + n) << n, X.nn)
     return bigset(ex, st, args[0], x * (1 << n))
 
 
@@ -908,7 +940,7 @@ def m_big_rsh(ex, st, args, ins, fn):
         raise Unsupported('big.Rsh by symbolic amount')
     X = bv_one(ex, st, args[1])
     if X is not None:
-        return bigset_bv(ex, st, args[0], X >> min(n, X.size() - 1))   # arithmetic shift (floor)
+        return bigset_bv(ex, st, args[0], X.t >> min(n, X.size() - 1), X.nn)   # arithmetic shift (floor)
     if isinstance(x, int):
         return bigset(ex, st, args[0], x >> n)
     return bigset(ex, st, args[0], x / (1 << n))   # floor division, as Go's arithmetic shift
@@ -932,7 +964,7 @@ def m_big_setbytes(ex, st, args, ins, fn):
         return bigset(ex, st, args[0], int.from_bytes(bytes(el), 'big'))
     if bvmode(ex):
         wide = z3.Concat(*[bv(e, 8) for e in el]) if len(el) > 1 else bv(el[0], 8)
-        return bigset_bv(ex, st, args[0], z3.ZeroExt(1, wide))
+        return bigset_bv(ex, st, args[0], z3.ZeroExt(1, wide), True)
     v = z3.IntVal(0)
     for e in el:
         v = v * 256 + z3.BV2Int(bv(e, 8), False)
@@ -949,7 +981,7 @@ def m_big_bytes(ex, st, args, ins, fn):
         return Slice(Ptr(c, ()), 0, len(b), len(b))
     X = bv_one(ex, st, args[0])
     if X is not None:
-        ax = bv_abs(X)
+        ax = X.abs().t
         w = ax.size()
         nb = (w - 1 + 7) // 8                       # ax < 2^(w-1)
         axp = z3.ZeroExt(8 * nb + 8 - w, ax)        # width 8*nb+8
@@ -993,7 +1025,7 @@ def m_math_readbits(ex, st, args, ins, fn):
     else:
         if b.bv is None:
             raise Unsupported('ReadBits of a symbolic big.Int without a bit-vector view')
-        ax = bv_abs(b.bv)
+        ax = SBV(b.bv, b.nn).abs().t
         W = max(ax.size(), 8 * n)
         axp = z3.ZeroExt(W - ax.size(), ax) if W > ax.size() else ax
         elems = tuple(z3.simplify(z3.Extract(8 * (n - i) - 1, 8 * (n - i) - 8, axp)) for i in range(n))
@@ -1014,7 +1046,7 @@ def m_big_bit(ex, st, args, ins, fn):
         return (b.v >> i) & 1
     if b.bv is None:
         raise Unsupported('Bit of a symbolic big.Int without a bit-vector view')
-    X = sext(b.bv, max(b.bv.size(), i + 1))
+    X = SBV(b.bv, b.nn).ext(max(b.bv.size(), i + 1))
     return z3.ZeroExt(63, z3.Extract(i, i, X))
 
 
@@ -1048,13 +1080,14 @@ def m_big_bitop(ex, st, args, ins, fn):
         if op == 'Not':
             X = bv_one(ex, st, args[1])
             if X is not None:
-                return bigset_bv(ex, st, args[0], ~X)
+                return bigset_bv(ex, st, args[0], ~X.t)
         else:
             pr = bv_pair(ex, st, args[1], args[2])
             if pr is not None:
                 w = max(pr[0].size(), pr[1].size())
-                A, B = sext(pr[0], w), sext(pr[1], w)
-                return bigset_bv(ex, st, args[0], {'And': A & B, 'Or': A | B, 'Xor': A ^ B}[op])
+                A, B = pr[0].ext(w), pr[1].ext(w)
+                nn = (pr[0].nn or pr[1].nn) if op == 'And' else (pr[0].nn and pr[1].nn)
+                return bigset_bv(ex, st, args[0], {'And': A & B, 'Or': A | B, 'Xor': A ^ B}[op], nn)
     x = bigv(ex, st, args[1])
     y = bigv(ex, st, args[2]) if len(args) > 2 else 0
     if isinstance(x, int) and isinstance(y, int):
